@@ -46,6 +46,8 @@ pub enum E {
 pub enum Pat {
     Var(String),
     Tuple(Vec<Pat>),
+    /// `{a = p, b = q}`: fields by name, in any order, possibly a subset of the record's fields
+    Record(Vec<(String, Pat)>),
 }
 
 #[derive(Clone, Debug, PartialEq)]
@@ -177,6 +179,7 @@ pub fn ppat(p: &Pat) -> String {
     match p {
         Pat::Var(v) => v.clone(),
         Pat::Tuple(ps) => format!("({})", ps.iter().map(ppat).collect::<Vec<_>>().join(",")),
+        Pat::Record(fs) => format!("{{{}}}", fs.iter().map(|(k, q)| format!("{k} = {}", ppat(q))).collect::<Vec<_>>().join(", ")),
     }
 }
 pub fn ps(s: &S, ind: usize) -> String {
@@ -427,6 +430,13 @@ impl<'p> Interp<'p> {
             (Pat::Tuple(ps), V::T(vs)) if ps.len() == vs.len() => {
                 for (p, v) in ps.iter().zip(vs) {
                     Self::bind_pat(p, v, env)?;
+                }
+                Ok(())
+            }
+            (Pat::Record(fs), V::R(vs)) => {
+                for (k, q) in fs {
+                    let v = vs.iter().find(|(n, _)| n == k).map(|(_, v)| v.clone()).ok_or_else(|| EvalErr::Bug(format!("record pattern: no field {k}")))?;
+                    Self::bind_pat(q, v, env)?;
                 }
                 Ok(())
             }
